@@ -38,6 +38,8 @@ def run(tier):
         runlib.deviation_must_fail(out, 'C04_Parts', 2, dev, opts='C04_Opts')
     out.assumptions = ['unmet/met conditions are env:, module: and command-line-flag requirements controlled by the harness',
                        'directive-looking text inside string literals: see the C01/C13 parser checks']
+    from . import tracelib
+    tracelib.traced_replay(out, 'C04_Parts<=2', 'C04_Parts', 2, opts='C04_Opts')
     return out.finish()
 
 
